@@ -129,4 +129,21 @@ PROPS["C20"] = {
     "nontrivial_min_tokens": 12,
 }
 
+PROPS["C15"] = {
+    "level": "other",
+    "level_text": "The recall floors are statistical statements about average-case quality on Gaussian data; no theorem of reasonable size yields them. What IS proved: recall is exactly 1.0 at full probe (IVF scans a permutation of the exhaustive candidates for every data set), and sorting makes the score sequence independent of insertion order. What is decided by proof elsewhere and guards the envelope: the algorithmic identity of HNSW / IVF / PQ / IVFPQ with their models (C12-C14), so any drift of the approximate indexes breaks a correspondence. The floors themselves (HNSW >= 0.9, IVF sqrt(nlist) >= 0.4, IVF full = 1.0, PQ/IVFPQ >= 0.5 and top-1-in-10 >= 0.85, first vs last inserted tenth within 0.1) are MEASURED on the real indexes against the real flat index at the stated scale (3000 x 16, 100 queries, k = 10), all three metrics, per seed.",
+    "level_note": "Measured, not proved: the numeric floors. Trusted: the harness's recall computation and Gaussian generator.",
+    "explanation": "theorem for the deterministic clauses (full-probe recall = 1, order-independence of sorted scores); measured envelope on the implementation for the statistical floors; algorithmic drift is caught by the C12-C14 correspondences",
+    "technique": "Coq theorem for the deterministic clause + measured recall envelope on the implementation (proof cannot yield the statistical floors)",
+    "correspondence": "n/a (measurement)",
+    "nontrivial_min_tokens": 5, "no_subsample": False,
+}
+
+PROPS["C11"] = {
+    "level_text": "Proved over ALL schedules: the two-phase soft-delete Remove / one-step Add, Search, Flush protocol shared by every vector index and BM25 is visibility-linearizable (a search returns every id added before it whose removal had not begun, nothing never added, nothing whose removal took effect), and the repaired memtable queue never reports a frozen memtable (the original is refuted with the schedule pick; rotate; write). Tied to the code and extended to what no Gallina model can exhibit by a harness built with the Go race detector: 2..16 goroutines of Add / Remove / search / Flush / WriteTo (and rotation, background flush, TriggerCompaction, Close for the store) on one shared instance of each of the five vector kinds, BM25, metadata, hybrid and the store, with logical begin/end times per operation; the recorded executions are judged by the extracted visibility oracle, any race report, panic, watchdog timeout (deadlock) or spurious failure fails the check; plus the targeted schedule at the verif yield point between picking the active memtable and writing to it, and uniqueness of automatically generated ids across goroutines and instances.",
+    "level_note": "PARTIAL by nature: data races, runtime panics and real deadlocks are runtime facts; the race detector and a watchdog only SEARCH for them (sampled schedules). The store's visibility run avoids flushes (segment loads overwrite the shared templates: known finding C08/1); the flush/compaction run checks races, panics, deadlocks and spurious failures only.",
+    "correspondence": "lock-protected sections of *_index.go, hybrid_search_index.go, storage*.go ~ Model.Conc steps (observed through recorded executions)",
+    "race": True, "nontrivial_min_tokens": 8, "sub_max_len": 4000, "gen_timeout": 900,
+}
+
 NOT_YET = {}
